@@ -6,12 +6,26 @@ Property theorems only; the model is Rc/Model/AsPath.lean (src/bgp/aspath.rs as
 coded), helper lemmas are in Rc/Lemmas/AsPath.lean.  Everything is for hop
 paths / byte strings of every length: the 255 and 510 boundaries are instances.
 
-`WfHops h` (decidable) describes the hop paths the public API can build:
-`Hop::Asn(a)` with `a < 2^32`; `Hop::Segment`s made by `Segment::new_set /
-new_confed_sequence / new_confed_set` or cut out of a checked wire path by
-`to_hop_path` (an AS_SEQUENCE-typed segment hop is then empty), whose ASNs fit
-their width, **with at most 255 ASNs** – the exclusion is known finding K2,
-witnessed by `compose_total_fails`.
+Two decidable predicates on hop paths:
+
+* `WfHopsG h` – **every hop path the public API can build, minus K2**:
+  `Hop::Asn(a)` with `a < 2^32`; `Hop::Segment`s of any type 1..4 in either
+  width whose ASNs fit their width, **with at most 255 ASNs**. That covers
+  `Segment::new_set / new_confed_sequence / new_confed_set`, segments cut out of
+  a checked wire path of either width (`AsPath::segments()` + `octets_into`,
+  `to_hop_path`), and a non-empty AS_SEQUENCE put into the hop path as ONE
+  `Hop::Segment` (`From<Vec<Segment>> for HopPath`, `append(Hop::Segment(..))`).
+  The only API-buildable hop paths outside it hold a `Segment::new_*` segment of
+  more than 255 ASNs: known finding K2, witnessed by `compose_total_fails`.
+  The valid-wire-form, two-octet-failure and no-panic clauses are proved under
+  `WfHopsG`.
+* `WfHops h` – the hop paths of the property's quantifier ("over ASNs, AS_SETs
+  and confederation segments"): as above but an AS_SEQUENCE-typed segment hop
+  is empty (what `to_hop_path` leaves of an empty AS_SEQUENCE). For these the
+  hops read back are the hop path itself (`hops_compose`); for a `WfHopsG` path
+  they are its *flat* hop sequence `flat b h`, in which an AS_SEQUENCE segment
+  hop stands for its ASNs (`hops_compose_flat`; `flat` is idempotent and keeps
+  the AS numbers and the path-selection count: `flat_idem`, `hopCountSel_flat`).
 -/
 import Rc.Lemmas.AsPath
 
@@ -24,35 +38,53 @@ open Rc Rc.AsPath
 octet, sequences longer than 255 are split)"*: `to_as_path` succeeds, the bytes
 pass `AsPath::check`, every segment read back has a type 1..4 and at most 255
 ASNs, and the segments carry exactly the AS numbers of the hop path, in order. -/
-theorem compose_valid (h : HopPath) (wf : WfHops h = true) :
+theorem compose_valid (h : HopPath) (wf : WfHopsG h = true) :
     ∃ (w : Bytes) (ss : List Seg), compose true h = .ok w ∧ check true w = .ok () ∧
       segments true w = .ok ss ∧ (∀ s ∈ ss, s.asns.length ≤ 255 ∧ 1 ≤ s.ty ∧ s.ty ≤ 4) ∧
       ss.flatMap (·.asns) = asnsOf h := by
-  obtain ⟨w, ss, a, b, c, d, e, _⟩ := compose_read h wf
+  obtain ⟨w, ss, a, b, c, d, e, _⟩ := compose_readG h wf
   exact ⟨w, ss, a, b, c, d, e⟩
 
 example : WfHops [.asn 1, .seg ⟨1, true, [2, 3]⟩, .asn 70000, .seg ⟨3, true, []⟩] = true := by decide
+example : WfHopsG [.seg ⟨2, true, [1, 2]⟩, .asn 7, .seg ⟨1, false, [65535]⟩] = true := by decide
 
-/-- *"... whose hop sequence is the original"*: reading the emitted path back
-with `hops()` (or `AsPath::new` + `to_hop_path`) gives the hop path, each
-segment hop now stored four-octet wide. -/
+/-- *"... whose hop sequence is the original"*, for the hop paths of the
+quantifier (`WfHops`): reading the emitted path back with `hops()` (or
+`AsPath::new` + `to_hop_path`) gives the hop path, each segment hop now stored
+four-octet wide. -/
 theorem hops_compose (h : HopPath) (wf : WfHops h = true) :
     ∃ w : Bytes, compose true h = .ok w ∧ hops true w = .ok (h.map (Hop.norm true)) ∧
       toHopPath true w = .ok (h.map (Hop.norm true)) := by
   obtain ⟨w, ss, a, b, _, _, _, f⟩ := compose_read h wf
   exact ⟨w, a, f, by simp [toHopPath, b, f]⟩
 
-/-- the same for *every* hop path whose segment hops have a wire form – also
-those no public constructor builds, where an AS_SEQUENCE-typed segment hop
-holds ASNs: the hops read back are the flat hop sequence of the original (such
-a segment hop counts as its ASNs). For API-built hop paths the flat sequence
-is the path itself (`flat_of_wfHops`). -/
+/-- the same for *every* API-buildable hop path (`WfHopsG`), where an
+AS_SEQUENCE-typed segment hop may hold ASNs: the hops read back are the flat hop
+sequence of the original (such a segment hop stands for its ASNs). For the hop
+paths of the quantifier the flat sequence is the path itself (`flat_of_wfHops`). -/
 theorem hops_compose_flat (h : HopPath) (wf : WfHopsG h = true) :
     ∃ w : Bytes, compose true h = .ok w ∧ check true w = .ok () ∧
       hops true w = .ok (flat true h) :=
   compose_flat h wf
 
 example : WfHopsG [.asn 1, .seg ⟨2, true, [7, 8]⟩, .seg ⟨2, false, []⟩] = true := by decide
+
+/-- the flat hop sequence is a normal form: flattening is idempotent, the result
+is a hop path of the quantifier (`WfHops`, four-octet segment hops), it converts
+to a wire path with the *same hops*, and a hop path is its own flat sequence
+exactly when it holds no non-empty AS_SEQUENCE segment hop and only four-octet
+segment hops. -/
+theorem flat_normal_form (h : HopPath) (wf : WfHopsG h = true) :
+    flat true (flat true h) = flat true h ∧
+      WfHops (flat true h) = true ∧ AllFour (flat true h) = true ∧
+      (∃ w w' : Bytes, compose true h = .ok w ∧ compose true (flat true h) = .ok w' ∧
+        hops true w = .ok (flat true h) ∧ hops true w' = .ok (flat true h)) ∧
+      (flat true h = h ↔ (WfHops h = true ∧ AllFour h = true)) := by
+  obtain ⟨f1, f2⟩ := wfHops_flat h wf
+  obtain ⟨w, a, _, c⟩ := compose_flat h wf
+  obtain ⟨w', a', _, c'⟩ := compose_flat (flat true h) (wfHopsG_of_wfHops _ f1)
+  rw [flat_idem] at c'
+  exact ⟨flat_idem true h, f1, f2, ⟨w, w', a, a', c, c'⟩, flat_eq_self_iff h wf⟩
 
 /-- for hop paths built with `Segment::new_set / new_confed_*` the hops read
 back are *identical* to the original. -/
@@ -117,9 +149,9 @@ theorem prepend_n (four : Bool) (w : Bytes) (a n : Nat) (hc : check four w = .ok
 
 /-- *"conversion to 2-octet form fails exactly when some AS number exceeds
 65535"*. -/
-theorem to16_fails_iff (h : HopPath) (wf : WfHops h = true) :
+theorem to16_fails_iff (h : HopPath) (wf : WfHopsG h = true) :
     compose false h = .err ↔ ∃ a ∈ asnsOf h, a > 65535 := by
-  obtain ⟨ss, _, c2, _⟩ := compose_spec h wf
+  obtain ⟨ss, _, c2, _⟩ := compose_specG h wf
   rw [c2]
   by_cases hex : ∃ a ∈ asnsOf h, a > 65535
   · have hs : ¬ allSmall (asnsOf h) = true := by
@@ -135,14 +167,14 @@ theorem to16_fails_iff (h : HopPath) (wf : WfHops h = true) :
     simp [hs, hex]
 
 /-- when no AS number exceeds 65535 the two-octet conversion succeeds, yields a
-checked two-octet path with the original hops, and that path *compares equal
-to and hashes like* the four-octet conversion of the same hop path. -/
-theorem to16_ok (h : HopPath) (wf : WfHops h = true) (hs : allSmall (asnsOf h) = true) :
+checked two-octet path with the original (flat) hops, and that path *compares
+equal to and hashes like* the four-octet conversion of the same hop path. -/
+theorem to16_ok (h : HopPath) (wf : WfHopsG h = true) (hs : allSmall (asnsOf h) = true) :
     ∃ (w16 w32 : Bytes), compose false h = .ok w16 ∧ compose true h = .ok w32 ∧
-      check false w16 = .ok () ∧ hops false w16 = .ok (h.map (Hop.norm false)) ∧
+      check false w16 = .ok () ∧ hops false w16 = .ok (flat false h) ∧
       pathEq false w16 true w32 = .ok true ∧
       (∃ k, hashKey false w16 = .ok k ∧ hashKey true w32 = .ok k) := by
-  obtain ⟨ss, c1, c2, c3, c4, c5, _⟩ := compose_spec h wf
+  obtain ⟨ss, c1, c2, c3, c4, c5, _⟩ := compose_specG h wf
   have c4 := c4 hs
   have s16 := segments_enc false ss c4
   have s32 := segments_enc true ss c3
@@ -225,36 +257,77 @@ theorem eq_implies_hash_eq (f1 f2 : Bool) (b1 b2 : Bytes) (h1 : check f1 b1 = .o
   · simp only [hashKey, g1]; rw [segsHashKey_eq _ l1, flatMap_hashWrites_sem hsem]
   · simp only [hashKey, g2]; rw [segsHashKey_eq _ l2]
 
+/-- the same one level up, on hop paths (derived `PartialEq`/`Hash` of `HopPath`
+over the hand-written ones of `Hop` and `Segment`): hop paths that compare equal
+– segment hops may be stored in different widths – feed the hasher the same
+sequence of writes. (Segment hops of at most 255 ASNs: beyond that
+`Segment::hash` panics in `asn_count`, K2.) -/
+theorem hopPath_eq_implies_hash_eq (h k : HopPath) (he : hopPathEq h k = true)
+    (hh : h.all Hop.lenOk = true) (hk : k.all Hop.lenOk = true) :
+    ∃ key, hopPathHashKey h = .ok key ∧ hopPathHashKey k = .ok key := by
+  obtain ⟨hl, key, a, b⟩ := hopPathEq_hops h k he hh hk
+  exact ⟨HW.len k.length :: key, by simp [hopPathHashKey, a, hl], by simp [hopPathHashKey, b]⟩
+
+/-- a hop path and the same hop path with its segment hops re-stored in another
+width compare equal (`Hop::eq` → `Segment::eq` is width-blind). -/
+theorem hopPath_eq_width (b : Bool) (h : HopPath) : hopPathEq (h.map (Hop.norm b)) h = true := by
+  induction h with
+  | nil => rfl
+  | cons x r ih =>
+    cases x with
+    | asn n => simp [hopPathEq, hopEq, Hop.norm, ih]
+    | seg s => simp [hopPathEq, hopEq, Hop.norm, segEq, Seg.setFour, ih]
+
 /-! ## path-selection hop count -/
 
-def isSeqAsn : Hop → Bool
-  | .asn _ => true
-  | .seg _ => false
+/-- the sequence AS numbers one hop stands for: a `Hop::Asn` is one, an
+AS_SEQUENCE held as one `Hop::Segment` is as many as it contains -/
+def seqAsnCount : Hop → Nat
+  | .asn _ => 1
+  | .seg s => if s.ty = 2 then s.asns.length else 0
 
 def isAsSet : Hop → Bool
   | .asn _ => false
   | .seg s => s.ty == 1
 
 /-- *"The path-selection hop count equals the number of sequence AS numbers
-plus the number of AS_SETs, ignoring confederation segments."* -/
+plus the number of AS_SETs, ignoring confederation segments"* – for EVERY hop
+path, no hypothesis (the code as repaired by F26: an AS_SEQUENCE held as one
+segment hop counts for each of its ASNs). -/
 theorem hopCountSel_spec (h : HopPath) :
-    hopCountSel h = (h.filter isSeqAsn).length + (h.filter isAsSet).length := by
-  have gen : ∀ (l : HopPath) (acc : Nat),
-      l.foldl selStep acc = acc + (l.filter isSeqAsn).length + (l.filter isAsSet).length := by
-    intro l
-    induction l with
-    | nil => intro acc; simp
-    | cons x r ih =>
-      intro acc
-      cases x with
-      | asn n => simp only [List.foldl_cons, ih, selStep, List.filter_cons, isSeqAsn, isAsSet]; simp; omega
-      | seg s =>
-        by_cases h1 : s.ty = 1 <;>
-          simp only [List.foldl_cons, ih, selStep, List.filter_cons, isSeqAsn, isAsSet, h1] <;>
-          simp [h1] <;> omega
-  have := gen h 0
-  simp only [Nat.zero_add] at this
-  exact this
+    hopCountSel h = (h.map seqAsnCount).sum + (h.filter isAsSet).length := by
+  rw [hopCountSel_eq]
+  induction h with
+  | nil => rfl
+  | cons x r ih =>
+    simp only [List.map_cons, List.sum_cons, List.filter_cons, ih]
+    cases x with
+    | asn n => simp [selOf, seqAsnCount, isAsSet]; omega
+    | seg s =>
+      by_cases h1 : s.ty = 1
+      · simp [selOf, seqAsnCount, isAsSet, h1]; omega
+      · by_cases h2 : s.ty = 2
+        · simp [selOf, seqAsnCount, isAsSet, h2]; omega
+        · simp [selOf, seqAsnCount, isAsSet, h1, h2]
+
+/-- the same count read off the wire: for every checked wire path (either
+width), the path-selection hop count of its hop path is the number of ASNs in
+its AS_SEQUENCE segments plus the number of its AS_SET segments; confederation
+segments contribute nothing. -/
+theorem hopCountSel_wire (four : Bool) (w : Bytes) (hc : check four w = .ok ()) :
+    ∃ (ss : List Seg) (h : HopPath), segments four w = .ok ss ∧ toHopPath four w = .ok h ∧
+      hopCountSel h = (ss.map segSel).sum := by
+  obtain ⟨ss, _, _, hseg, _, hh⟩ := wire_view four w hc
+  exact ⟨ss, hopsOfSegs ss, hseg, hh, hopCountSel_hopsOfSegs ss⟩
+
+/-- ... and it does not depend on how the hop path holds its AS_SEQUENCEs: a
+hop path and its flat hop sequence (what is read back after a trip over the
+wire) have the same count. -/
+theorem hopCountSel_flat_eq (b : Bool) (h : HopPath) : hopCountSel (flat b h) = hopCountSel h :=
+  hopCountSel_flat b h
+
+example : hopCountSel [.seg ⟨2, true, [10, 20]⟩, .asn 7, .seg ⟨1, true, [1, 2, 3]⟩, .seg ⟨3, true, [9]⟩] = 4 := by
+  decide
 
 /-! ## known finding K2: long non-sequence segments -/
 
@@ -279,11 +352,11 @@ theorem compose_total_fails : ¬ ComposeTotalStatement := by
     (compose_long_segment_panics true _
       (by show 255 < (List.replicate 256 0).length; rw [List.length_replicate]; omega))
 
-/-- ... and with exactly that exclusion (`WfHops`: at most 255 ASNs per segment
-hop) neither conversion panics. -/
-theorem compose_total_partial (h : HopPath) (wf : WfHops h = true) :
+/-- ... and with exactly that exclusion (`WfHopsG`: at most 255 ASNs per segment
+hop) neither conversion panics, for every API-buildable hop path. -/
+theorem compose_total_partial (h : HopPath) (wf : WfHopsG h = true) :
     compose true h ≠ .panic ∧ compose false h ≠ .panic := by
-  obtain ⟨ss, c1, c2, _⟩ := compose_spec h wf
+  obtain ⟨ss, c1, c2, _⟩ := compose_specG h wf
   rw [c1, c2]
   refine ⟨by simp, ?_⟩
   split <;> simp
